@@ -64,6 +64,7 @@ func (c *Check) registryLocked(rule string) {
 func checkC20(c *Check) {
 	p := c.P
 	c.registryLocked("C20.1 one-mutex")
+	c.checkThenActAtomic("C20.1 check-then-act")
 	c.peerConfigVerbatim("C20.1 registry-key-consistent")
 	c.capturedVarDiscipline("C20.3 every-listener-served")
 	c.configuredHoldTimeProvenance("C20.4 options-per-call")
@@ -73,6 +74,7 @@ func checkC20(c *Check) {
 	c.passiveOption("C20.5 passive-option")
 	c.registryKeys("C20.1 registry-keys")
 	c.optionsApplied("C20.4 options-applied")
+	c.serverContracts("C20.3 serve-after-close")
 	c.accumulatorsStartEmpty("C20.2 accumulators", "Server.ListPeers")
 	isExists := func(e *Expr) bool {
 		return e.Op == "ex" && len(e.Args) == 2 && e.Args[0].Op == "val" && isBoolType(e.Typ)
@@ -611,4 +613,71 @@ func (c *Check) routerIDAccepted(rule string) {
 			return ""
 		}},
 	})
+}
+
+// checkThenActAtomic: AddPeer's existence test and insert, and DeletePeer's
+// existence test and delete, are one critical section: the test is made by the
+// function itself (or a helper it runs under its own lock), and Server.mu is
+// not released between the test and the update. Two overlapping AddPeer calls
+// for one address otherwise both pass the test, and two peer managers run.
+func (c *Check) checkThenActAtomic(rule string) {
+	p := c.P
+	isPeersMap := func(v ssa.Value) bool { return typeKey(v.Type()) == "map[string]*peer" }
+	for _, name := range []string{"Server.AddPeer", "Server.DeletePeer"} {
+		fn := p.Fn(name)
+		if fn == nil {
+			continue
+		}
+		var lookups, updates []ssa.Instruction
+		allInstrs(fn, func(in ssa.Instruction) {
+			switch x := in.(type) {
+			case *ssa.Lookup:
+				if isPeersMap(x.X) {
+					lookups = append(lookups, in)
+				}
+			case *ssa.MapUpdate:
+				if isPeersMap(x.Map) {
+					updates = append(updates, in)
+				}
+			case *ssa.Call:
+				if b, ok := x.Call.Value.(*ssa.Builtin); ok && b.Name() == "delete" && len(x.Call.Args) > 0 && isPeersMap(x.Call.Args[0]) {
+					updates = append(updates, in)
+				}
+			}
+		})
+		if len(updates) == 0 {
+			c.undecided(rule, name, "registry update", p.Pos(fn.Pos()), "no insert into / delete from the registry map found in this function or its helpers")
+			continue
+		}
+		isUpdate := func(y ssa.Instruction) bool {
+			for _, u := range updates {
+				if y == u {
+					return true
+				}
+			}
+			return false
+		}
+		isUnlock := func(y ssa.Instruction) bool {
+			cl, ok := y.(*ssa.Call)
+			return ok && p.calleeDesc(cl) == "sync.Mutex.Unlock"
+		}
+		ok := len(lookups) > 0
+		detail := "the existence test is a lookup made in the same critical section as the update"
+		if !ok {
+			detail = "no lookup of the registry map in this function: the existence test is made elsewhere, under a lock that was released again"
+		}
+		for _, l := range lookups {
+			if u := pathSearch(fn, l, isUnlock, isUpdate); u != nil {
+				if pathSearch(fn, u, isUpdate, nil) != nil {
+					ok = false
+					detail = "Server.mu is released at " + p.InstrPos(u) + " between the existence test and the update"
+				}
+			}
+		}
+		pos := p.Pos(fn.Pos())
+		if len(lookups) > 0 {
+			pos = p.InstrPos(lookups[0])
+		}
+		c.require(ok, rule, name, "existence test and update are one critical section", pos, detail)
+	}
 }
